@@ -49,7 +49,7 @@ def run_jobs(jobs, nproc=16, timeout_s=3600, tag="run", env_extra=None):
                 of = os.path.join(base, f"out{i}.json")
                 lf = os.path.join(base, f"log{i}.txt")
                 with open(jf, "w") as fh:
-                    json.dump(job, fh)
+                    json.dump({k: v for k, v in job.items() if k != "_retried"}, fh)
                 log = open(lf, "wb")
                 p = subprocess.Popen(
                     [PY, "-u", "-m", "vlib.shards", jf, of],
@@ -76,6 +76,10 @@ def run_jobs(jobs, nproc=16, timeout_s=3600, tag="run", env_extra=None):
                         errors.append(f"job {i} {job['module']}.{job['func']}: {d['harness_error']}")
                     else:
                         merged.merge(Acc.from_json(d["acc"]))
+                elif rc is not None and rc < 0 and not job.get("_retried"):
+                    # killed from outside (shared machine): run it once more rather than failing the whole check
+                    job["_retried"] = True
+                    pending.append((i, job))
                 else:
                     tail = ""
                     try:
